@@ -125,9 +125,12 @@ func PlayMulti(beh M, rng *rand.Rand, proj *Projection) ([][]M, error) {
 	// (every third execution: all start-up packets are on their way before the first session is waited for - the
 	// sessions come up at the same time; user names differ in length)
 	overlap := I(beh, "_i")%3 == 1
+	sameCreds := S(cfg, "auth") == "clear" && I(beh, "_i")%10 == 2
 	for c := 0; c < nc; c++ {
 		user := fmt.Sprintf("user%d", c+1)
-		if overlap && c%2 == 1 {
+		if sameCreds {
+			user = "shared_role"
+		} else if overlap && c%2 == 1 {
 			user = fmt.Sprintf("user%d_with_a_rather_long_name", c+1)
 		}
 		kvs := []any{M{"k": "user", "v": user}, M{"k": "database", "v": fmt.Sprintf("db%d", c+1)}}
@@ -144,8 +147,25 @@ func PlayMulti(beh M, rng *rand.Rand, proj *Projection) ([][]M, error) {
 	if S(cfg, "auth") == "clear" {
 		// every connection has been asked for its password before the first one answers: each login is
 		// validated with its own user and database
+		if sameCreds {
+			// ... also when the logins carry the same user name and password (for different databases) and the
+			// first one is still inside the validator when the others arrive
+			s.mu.Lock()
+			s.ParkOnce[actor(0)] = "validate.enter"
+			s.mu.Unlock()
+		}
 		for c := 0; c < nc; c++ {
-			send(c, M{"t": "p", "pw": "good"}, true)
+			pm := M{"t": "p", "pw": "good"}
+			if sameCreds {
+				pm["pwd"] = "good-same"
+			}
+			send(c, pm, true)
+		}
+		if sameCreds && s.settle(actor(0)) == "parked" {
+			s.release(actor(0))
+			for c := 0; c < nc; c++ {
+				s.settleConn(conns[c], actor(c))
+			}
 		}
 	}
 	group := func(c int, kind string) {
